@@ -1165,6 +1165,7 @@ impl<T, L: Clone + Layout> TensorBase<Vec<T>, L> {
     {
         let (start, end) = (range.start, range.end);
 
+        assert!(dim < self.ndim(), "dim {} out of bounds", dim);
         assert!(start <= end, "start must be <= end");
         assert!(end <= self.size(dim), "end must be <= dim size");
 
